@@ -108,7 +108,7 @@ def fam_chain(w: World) -> None:
 
 FAMILIES = {'chain': fam_chain}
 PLAN = {
-    'quick': {'chain': 14000},
+    'quick': {'chain': 112000},
     'thorough': {'chain': 120000},
 }
 THOROUGH_BUDGET_S = 600
